@@ -452,8 +452,9 @@ def tasks(tier):
 
 
 def _lifecycle(T):
-    from .BK_backend_ops import t_lifecycle
+    from .BK_backend_ops import t_lifecycle, t_object_state
     t_lifecycle(T)
+    t_object_state(T)
 
 
 # ---------------------------------------------------------------- native replay
